@@ -159,6 +159,14 @@ def h_settings_handover(symbolic_settings):
               'server-encoder-table-size-stale', None)
         check(s_eq(s.streams[1].outbound_flow_control_window,
                    c.local_settings.initial_window_size), 'stream-1-window', None)
+        check(s_eq(s.streams[1].max_outbound_frame_size, c.local_settings.max_frame_size),
+              'stream-1-max-outbound-frame-size-stale', None)
+        # INITIAL_WINDOW_SIZE is about streams: both connection windows stay at 65535
+        check(s_and(s_eq(s.outbound_flow_control_window, 65535),
+                    s_eq(c.outbound_flow_control_window, 65535),
+                    s_eq(s.inbound_flow_control_window, 65535)),
+              'connection-window-changed-by-upgrade',
+              (s.outbound_flow_control_window, c.outbound_flow_control_window))
         # the client's settings frame (first frame of its preface) carries the same values
         if cframes and isinstance(cframes[0], hf.SettingsFrame):
             for k in KNOWN:
@@ -168,6 +176,34 @@ def h_settings_handover(symbolic_settings):
                     continue
                 check(int(k) in [int(x) for x in cframes[0].settings] and
                       s_eq(cframes[0].settings[k], cv), 'preface-settings:' + _name(k), None)
+    return h
+
+
+def h_invalid_header_settings():
+    """an HTTP2-Settings value carrying an out-of-range setting is refused with the code
+    RFC 7540 6.5.2 mandates for that setting (the same rule as for a SETTINGS frame)"""
+    from props.c12 import expected_code
+    from engine.core import INT32
+
+    def h():
+        code = sym_choice('setting', [1, 2, 3, 4, 5, 6, 8])
+        val = sym_int('value', 0, INT32, default=2 ** 31)
+        f = hf.SettingsFrame(0)
+        f.settings = {code: val}
+        token = base64.urlsafe_b64encode(f.serialize_body())
+        s = h2h.conn(False)
+        exp = expected_code(code, val)
+        try:
+            s.initiate_upgrade_connection(token)
+        except h2.exceptions.ProtocolError as e:
+            note('refused')
+            check(exp != 0, 'valid-header-settings-refused', (code, val))
+            check(e.error_code == exp, 'header-settings-error-code', (code, val, e.error_code,
+                                                                      exp))
+        else:
+            note('upgraded')
+            check(exp == 0, 'invalid-header-settings-accepted', (code, val))
+            check(s_eq(s.remote_settings[code], val), 'header-setting-not-applied', None)
     return h
 
 
@@ -268,7 +304,9 @@ def h_stream_one():
 
 
 def shards(tier, seed):
-    return [Shard('handover/symbolic-settings', h_settings_handover(True), budget=120,
+    return [Shard('handover/invalid-header-settings', h_invalid_header_settings(),
+                  expect=['refused', 'upgraded']),
+            Shard('handover/symbolic-settings', h_settings_handover(True), budget=120,
                   expect=['upgraded']),
             Shard('handover/default-settings', h_settings_handover(False), expect=['upgraded']),
             Shard('stream_one', h_stream_one(), expect=['upgraded'])]
